@@ -436,9 +436,9 @@ fn comfortable(s: &Spec) -> bool {
 }
 
 pub fn specs(thorough: bool) -> Vec<Spec> {
-    let pos: Vec<f32> = if thorough { vec![-1e4, -250.0, -3.0, -1.0, -0.015625, 0.0, 0.015625, 1.0, 3.0, 250.0, 1e4] } else { vec![-1e4, -250.0, -1.0, 0.0, 1.0, 250.0, 1e4] };
-    let frac: Vec<f32> = if thorough { vec![-1.0, -0.75, -0.5, 0.0, 0.3, 0.5, 1.0] } else { vec![-1.0, -0.5, 0.0, 0.5, 1.0] };
-    let lim: Vec<f32> = if thorough { vec![1e-2, 0.1, 1.0, 30.0, 1e3] } else { vec![1e-2, 1.0, 1e3] };
+    let pos: Vec<f32> = if thorough { vec![-1e4, -999.9, -250.0, -3.0, -1.0, -0.015625, 0.0, 0.015625, 1.0, 3.0, 250.0, 999.9, 1e4] } else { vec![-1e4, -250.0, -1.0, 0.0, 1.0, 250.0, 1e4] };
+    let frac: Vec<f32> = if thorough { vec![-1.0, -0.75, -0.5, -0.1, 0.0, 0.3, 0.5, 0.9, 1.0] } else { vec![-1.0, -0.5, 0.0, 0.5, 1.0] };
+    let lim: Vec<f32> = if thorough { vec![1e-2, 0.1, 1.0, 7.0, 30.0, 1e3] } else { vec![1e-2, 1.0, 1e3] };
     let mut v = Vec::new();
     for &p0 in &pos {
         for &p1 in &pos {
